@@ -23,6 +23,7 @@ def main (args : List String) : IO UInt32 := do
   | ["cstate-C02"] => Driver.CStateD.run false ["C02"]
   | ["cstate-C10"] => Driver.CStateD.run false ["C10"]
   | ["cstate-C11"] => Driver.CStateD.run false ["C11"]
+  | ["cstate-C18"] => Driver.CStateD.run false ["C18"]
   | ["cstate-C07", "--selftest-wrong"] => Driver.CStateD.run true ["C07"]
   | ["cstate-C02", "--selftest-wrong"] => Driver.CStateD.run true ["C02"]
   | ["cstate-C10", "--selftest-wrong"] => Driver.CStateD.run true ["C10"]
